@@ -54,8 +54,11 @@ def clauses(lst, props=()):
 
 class Outcome:
     def __init__(self, label, kind, post, exc=None, site=None, when=None, res="none", mods="all", user=False,
-                 value=None):
+                 value=None, tag=None):
         self.label, self.kind, self.post, self.exc, self.site = label, kind, post, exc, site
+        # tag: static facts about the result object that callers may use (e.g. {"py": "tuple"}: exactly a built-in tuple);
+        # the function's own returned value must carry the same tag (KIND obligation)
+        self.tag = tag
         self.when, self.res, self.mods, self.user = when, res, mods, user
         # value(ctx): the result as a closed term over the entry view/ghost state (functional contracts; lets a call
         # be used inside any()/all()/max() generator expressions)
@@ -163,7 +166,7 @@ class HeapExec(Exec):
             yield p, vbool(ASSERTIONS)
         elif name in ("NodeMixin", "LightNodeMixin", "TreeError", "LoopError", "PreOrderIter", "WalkError", "Walker"):
             yield p, V("class", name)
-        elif name in ("hasattr", "isinstance", "tuple", "len", "any", "all", "id", "set", "list", "reversed",
+        elif name in ("hasattr", "isinstance", "type", "tuple", "len", "any", "all", "id", "set", "list", "reversed",
                       "enumerate", "max", "super", "next", "zip"):
             yield p, V("builtin", name)
         else:
@@ -182,6 +185,9 @@ class HeapExec(Exec):
         return Exec.truth(self, v, p, e)
 
     def is_compare(self, l, r, p, e):
+        for a_, b_ in ((l, r), (r, l)):
+            if a_.k == "pytype" and b_.k == "builtin":
+                return BoolVal(a_.t == b_.t)
         if l.k in ("ref", "listref") and r.k in ("ref", "listref"):
             return l.t == r.t
         raise Unsupported("identity comparison %s" % ast.unparse(e))
@@ -588,9 +594,21 @@ class HeapExec(Exec):
                 else:
                     raise Unsupported("hasattr(_, %r)" % a.t)
             return
+        if name == "type" and len(args) == 1:
+            for q, vs in self.evs(args, p):
+                py = (vs[0].x or {}).get("py") if isinstance(vs[0].x, dict) else None
+                if py is None:
+                    raise Unsupported("type() of a value whose exact built-in type is not known statically")
+                yield q, V("pytype", py)
+            return
         if name == "isinstance":
             for q, vs in self.evs(args[:1], p):
                 names = sorted(ast.unparse(x) for x in (args[1].elts if isinstance(args[1], ast.Tuple) else [args[1]]))
+                py = (vs[0].x or {}).get("py") if isinstance(vs[0].x, dict) else None
+                if vs[0].k == "aseq" and py in ("tuple", "list") and set(names) <= {"tuple", "list"}:
+                    # a value built by tuple(...) / list(...) / a display in this very function: its exact built-in type is known
+                    yield q, vbool(py in names)
+                    continue
                 if names != ["LightNodeMixin", "NodeMixin"] or vs[0].k != "ref":
                     raise Unsupported("isinstance %s" % ast.unparse(e))
                 # forests are homogeneous in their mixin family (assumption): being an instance of either mixin
@@ -599,16 +617,19 @@ class HeapExec(Exec):
             return
         if name == "tuple":
             if not args:
-                yield p, V("aseq", ASeq(IntVal(0), K(I, NONE)))
+                yield p, V("aseq", ASeq(IntVal(0), K(I, NONE)), {"py": "tuple"})
                 return
             if isinstance(args[0], ast.GeneratorExp):
-                yield from self.comprehension(args[0], p, "tuple")
+                for q, v in self.comprehension(args[0], p, "tuple"):
+                    if v.k == "aseq" and v.x is None:
+                        v = V("aseq", v.t, {"py": "tuple"})
+                    yield q, v
                 return
             for q, vs in self.evs(args, p):
                 v = vs[0]
                 if v.k in ("listref", "aseq"):
                     s = self.seq_of(v, q)
-                    yield q, V("aseq", ASeq(s.n, s.a))
+                    yield q, V("aseq", ASeq(s.n, s.a), {"py": "tuple"})
                 elif v.k == "iterseq" and isinstance(v.x, ASeq):
                     yield q, V("aseq", v.x)
                 elif v.k == "rev":
@@ -618,7 +639,7 @@ class HeapExec(Exec):
                     r = q.fork(Not(iterable(v.t)))
                     self.raise_(r, Exc("TypeError", "tuple"))
                     q.assume(iterable(v.t), itlen(v.t) >= 0)
-                    yield q, V("aseq", ASeq(itlen(v.t), itat(v.t)))
+                    yield q, V("aseq", ASeq(itlen(v.t), itat(v.t)), {"py": "tuple"})
                 else:
                     raise Unsupported("tuple(%r)" % v)
             return
@@ -833,10 +854,12 @@ class HeapExec(Exec):
             else:
                 S1 = q.S
             if o.value is not None:
-                res = V(o.res, o.value(ctx))
+                res = V(o.res, o.value(ctx), dict(o.tag) if o.tag else None)
             else:
                 res = self.fresh_result("int" if (o.res.startswith("wit") or o.res == "payload") else
                                         ("none" if o.res == "exc" else o.res))
+                if o.tag and res.x is None:
+                    res = V(res.k, res.t, dict(o.tag))
             q.set_state(S1)
             q.assume(*[c.assumable() for c in clauses(o.post(ctx, S1, res))])
             if o.kind == "return":
@@ -1036,6 +1059,10 @@ def _judge_one(spec, world, ex, ctx, x, o, value):
             if value is None or not world.kind_ok(o.res, value):
                 ex.oblig(p, "KIND", "%s/result-kind" % o.label, BoolVal(False),
                          note="result %r is not of the contract's kind %s" % (value, o.res))
+                return
+            if o.tag and not (isinstance(value.x, dict) and all(value.x.get(k_) == v_ for k_, v_ in o.tag.items())):
+                ex.oblig(p, "KIND", "%s/result-type" % o.label, BoolVal(False),
+                         note="the returned object is not known to be %s" % (o.tag,))
                 return
         extra = []
         if o.value is not None and x.kind == "return":
